@@ -539,7 +539,23 @@ fn mutate_at(t: &mut Tree, target: &mut usize, rng: &mut Rng) -> bool {
                     }
                 };
             }
-            Tree::Seq(xs) => match rng.below(6) {
+            Tree::Seq(xs) => match rng.below(7) {
+                // an archetype block that consistently announces nothing: `[0, k, ids, [[], [], …]]`
+                6 if xs.len() == 4 && matches!(xs[0], Tree::Num(_)) && matches!(xs[3], Tree::Seq(_)) => {
+                    xs[0] = Tree::Num(0);
+                    if let Tree::Seq(cols) = &mut xs[3] {
+                        for c in cols.iter_mut() {
+                            *c = Tree::Seq(vec![]);
+                        }
+                    }
+                    if rng.chance(50) {
+                        xs[1] = Tree::Num(0);
+                        xs[2] = Tree::Seq(vec![]);
+                        if let Tree::Seq(cols) = &mut xs[3] {
+                            cols.truncate(1);
+                        }
+                    }
+                }
                 0 if !xs.is_empty() => {
                     xs.pop();
                 }
